@@ -17,7 +17,7 @@ pub fn evals(prop: &str) -> Vec<(&'static str, &'static str)> {
         match prop {
             "C06" => v.extend([("prop_same_tokens", "prop_same_tokens"), ("prop_sorted_derives", "prop_sorted_derives")]),
             "C09" => v.extend([("prop_frame", "prop_frame"), ("prop_switches", "prop_switches")]),
-            "C17" => v.extend([("prop_same_tokens", "prop_same_tokens")]),
+            "C17" => v.extend([("prop_same_tokens", "prop_same_tokens"), ("hyp_c17", "hyp_c17")]),
             _ => {}
         }
         v.push(("hyp_both_ok", "hyp_both_ok"));
@@ -276,7 +276,7 @@ pub fn cases(prop: &str, tier: &str, ctx: &mut Ctx, rng: &mut Rng) {
                     rng.shuffle(&mut perm);
                     let r2j = renumber(rj, &perm);
                     let r2 = reggen::to_registry(&r2j);
-                    ctx.push_pair("renumbered", "same", (&reg, &spec), (&r2, &spec));
+                    ctx.push_pair("renumbered", "renumbered", (&reg, &spec), (&r2, &spec));
                 }
                 // restriction to the types reachable from a chosen set of ids (scale-info's own retain)
                 if n > 0 {
